@@ -204,9 +204,13 @@ class Worker(courier_utils.CourierClient):
         self._worker_pool = worker_pool
       return self._worker_pool is worker_pool
 
-  def release(self):
-    """Releases the worker."""
+  def release(self, worker_pool: WorkerPool | None = None):
+    """Releases the worker, only if free or held by `worker_pool` when given."""
     with self._states_lock:
+      # The ownership check and the release have to be atomic, otherwise another
+      # pool can acquire the worker in between and lose it.
+      if worker_pool is not None and not self.is_available(worker_pool):
+        return
       if self._lock.locked():
         self._lock.release()
       self._worker_pool = None
@@ -281,8 +285,7 @@ class WorkerPool:
   def release_all(self, workers: Iterable[Worker] = ()):
     workers = workers or self._workers
     for worker in workers:
-      if worker.is_available(self):
-        worker.release()
+      worker.release(self)
 
   def wait_until_alive(
       self,
